@@ -453,7 +453,7 @@ def gen(rng, tier):
     # scalars: every special value in every number mode (ties Dtoa.fmtG / Strtod to glibc)
     for b in SPECIAL_D:
         cases.append(["enc %d d%016x" % (m, b) for m in (8, 10, 40, 42)] + ["rt 8 d%016x" % b, "rt 0 d%016x" % b])
-    for i in range((150 if quick else 60000)):
+    for i in range((500 if quick else 60000)):
         d = gen_double(rng)
         f = gen_float(rng)
         cases.append(["enc %d d%016x" % (m, d[1]) for m in (8, 10)] + ["rt 8 d%016x" % d[1]] +
@@ -466,7 +466,7 @@ def gen(rng, tier):
         ops = ["enc 8 s%s" % hexs(s), "rt 8 s%s" % hexs(s), "rt 0 s%s" % hexs(s), "rt 9 o1 %s i1" % hexs(s + b"k"), "rt 8 a2 s%s s%s" % (hexs(s + s), hexs(b"x" + s))]
         cases.append(ops)
     # type-directed trees
-    for i in range((300 if quick else 80000)):
+    for i in range((1000 if quick else 80000)):
         opts = {"utf8": rng.random() < 0.8, "ident_keys": rng.random() < 0.5, "reals": rng.random() < 0.85}
         tree = gen_tree(rng, 0, rng.choice([1, 2, 3, 4, 6, 8]), opts)
         if len(tokens(tree)) > 3000:
@@ -492,7 +492,7 @@ def gen(rng, tier):
     span = 150 if quick else 150
     bases = [16382, 16000] if quick else [16382, 16000, 32764, 49146, 65528]
     for base in bases:
-        for off in range(0, span, 1 if not quick else 2):
+        for off in range(0, span):
             pad = base - span + off
             tree = ("a", [("p", pad), probe])
             cases.append(["file %d %s" % (rng.choice([8, 8, 9]), " ".join(tokens(tree)))])
@@ -550,7 +550,7 @@ def distribution(cases):
 
 
 EXHAUSTIVE = {"quick": "all 255 single-byte strings/keys; every pad length so that the 16382-byte read boundary and the 16000-byte flush "
-                       "threshold fall on every second byte of a probe document",
+                       "threshold fall on every byte of a probe document",
               "thorough": "all 255 single-byte strings/keys; every pad length across 150 bytes around 16382*k (k=1..4) and 16000"}
 
 LEVEL_TEXT = ("Proved in Lean 4 for ALL Var trees (any depth/size; 32-bit ints; strings and keys = arbitrary NUL-free bytes incl. control "
